@@ -435,6 +435,9 @@ def run(ctx):
     jobs = [(k, ntrees // nw, ctx.scale(10, 14), ctx.seed, ctx.scale(30, 80), 1) for k in range(nw)]
     ctx.pmap(worker, jobs)
     ctx.pmap(order_worker, [(k, ctx.scale(10, 1500), ctx.seed) for k in range(nw)])
+    import deep
+    ctx.pmap(deep.deep_worker, [("order", k, 1 if ctx.quick else 6, ctx.seed) for k in range(common.NCPU)])
+    ctx.require("runs_over_a_tree_deeper_than_the_open_files_limit", 8)
     ctx.pmap(xdev_worker, [(k, ctx.scale(3, 60), ctx.seed) for k in range(nw)])
     if ctx.stats.c.get("mount_not_permitted") and not ctx.stats.c.get("trees_with_mount_points"):
         ctx.stats.notes.append("mounting a tmpfs inside the sandbox is not permitted here: the -xdev workload was not run")
